@@ -2,6 +2,7 @@
 From Coq Require Export List ZArith Lia Bool Arith.
 From Coq Require Export Strings.Byte.
 From Coq Require Strings.String Strings.Ascii.
+Export Coq.Strings.String.StringSyntax.
 Export ListNotations.
 
 Definition bytes := list byte.
@@ -72,6 +73,7 @@ Proof. intros H. rewrite <- (byte_of_Z_bZ a), <- (byte_of_Z_bZ b). congruence. Q
 
 (* string literals as byte lists *)
 Definition B (s : String.string) : bytes := String.list_byte_of_string s.
+Arguments B s%string_scope.
 
 (* lexicographic bytewise comparison, as Go's string < *)
 Fixpoint bytes_ltb (a b : bytes) : bool :=
